@@ -1,5 +1,6 @@
 import SJ.Model.Stream
 import SJ.Proofs.Machine
+import SJ.Proofs.StreamValues
 /-!
 # C12 — stream iteration yields each value once with exact offsets
 
@@ -102,5 +103,118 @@ def envS : Env := { cfg := {}, src := .slice, tgt := .value }
 example : (history envS 5 (start [0x31, 0x20, 0x5b, 0x32, 0x5d, 0x78])).map (·.2) = [1, 5, 5, 5, 5] := rfl
 example : ((history envS 5 (start [0x31, 0x20, 0x5b, 0x32, 0x5d, 0x78])).map fun p =>
     match p.1 with | .none => 0 | .ok _ => 1 | .err _ _ => 2) = [1, 1, 2, 0, 0] := rfl
+
+/-! ## a stream of values yields exactly those values, with exact offsets
+
+The input is `w₀ v₁ w₁ … vₙ wₙ` (`Seg` = value bytes `v`, syntax tree `t`, whitespace `w` after it):
+each `vᵢ` derives `tᵢ` and meets the side conditions of its target (`Side`: none for skipped
+content), each `wᵢ` is whitespace (possibly empty), and the delimiter rule of `peek_end_of_value`
+holds (`DelimOK`: a bare scalar is followed by the end of input or a byte of `Gen.streamDelims`;
+after `]`, `}`, `"` anything may follow, so `[1][2]` and `"a""b"` need no separator).
+`expected` lists, for each value, `Some(Ok(value))` with `byte_offset()` just past it, then `None`
+for every further call with `byte_offset()` past the trailing whitespace (= the input's length). -/
+
+open SJ.Proofs.StreamValues SJ.Proofs.Complete
+open SJ.Spec.Grammar (CST Ws Derives)
+
+/-- **C12 (values and offsets).** `n + k` calls of `next()` on a well-formed stream of `n` values. -/
+theorem c12_values (env : Env) (w₀ : Bytes) (segs : List Seg) (k : Nat) (hw : Ws w₀)
+    (hok : StreamOK env segs) :
+    ∃ vals, ResAll env segs vals ∧
+      history env (segs.length + k) (start (w₀ ++ segsBytes segs)) = expected w₀.length segs vals k := by
+  obtain ⟨vals, hv, hh⟩ := history_values env k segs w₀ 0 0 hw hok
+  exact ⟨vals, hv, by simpa [start] using hh⟩
+
+/-- reading `expected`: the `i`-th item is the `i`-th value, its offset is the length of the input
+    up to and including that value -/
+theorem c12_expected_at (env : Env) (segs : List Seg) (vals : List JV) (k base : Nat)
+    (hv : ResAll env segs vals) (i : Nat) (hi : i < segs.length) :
+    ∃ (h2 : i < vals.length), (expected base segs vals k)[i]? =
+      some (.ok vals[i], base + (segsBytes (segs.take i)).length + segs[i].v.length) := by
+  induction segs generalizing vals base i with
+  | nil => simp at hi
+  | cons s r ih =>
+    cases vals with
+    | nil => exact hv.elim
+    | cons v vs =>
+      cases i with
+      | zero => exact ⟨by simp, by simp [expected, segsBytes]⟩
+      | succ j =>
+        obtain ⟨h2, hj⟩ := ih vs (base + s.v.length + s.w.length) hv.2 j (by simpa using hi)
+        refine ⟨by simpa using h2, ?_⟩
+        simp only [expected, List.getElem?_cons_succ, hj, List.take_succ_cons, segsBytes,
+          List.length_append, List.getElem_cons_succ]
+        congr 3; omega
+
+/-- … and after the values come `k` times `None`, at the offset of the end of the input -/
+theorem c12_expected_end (env : Env) (segs : List Seg) (vals : List JV) (k base : Nat)
+    (hv : ResAll env segs vals) :
+    (expected base segs vals k).drop segs.length =
+      List.replicate k (.none, base + (segsBytes segs).length) := by
+  induction segs generalizing vals base with
+  | nil => simp [expected, segsBytes]
+  | cons s r ih =>
+    cases vals with
+    | nil => exact hv.elim
+    | cons v vs =>
+      simp only [expected, List.length_cons, List.drop_succ_cons, ih vs _ hv.2, segsBytes,
+        List.length_append]
+      congr 2; omega
+
+/-- **C12, one value** (`n = 1`): the value, its end offset, then `None` at the end of the input -/
+theorem c12_values_one (env : Env) (w₀ v w₁ : Bytes) (t : CST) (k : Nat) (hw₀ : Ws w₀)
+    (hd : Derives v t) (hside : Side env 0 t) (hw₁ : Ws w₁) (hdel : DelimOK v w₁) :
+    ∃ val, Res env t val ∧
+      history env (1 + k) (start (w₀ ++ v ++ w₁)) =
+        (.ok val, w₀.length + v.length) :: List.replicate k (.none, w₀.length + v.length + w₁.length) := by
+  obtain ⟨vals, hv, hh⟩ := c12_values env w₀ [⟨v, t, w₁⟩] k hw₀
+    ⟨hd, hside, hw₁, by simpa [segsBytes] using hdel, trivial⟩
+  cases vals with
+  | nil => exact hv.elim
+  | cons val vs =>
+    cases vs with
+    | cons _ _ => exact hv.2.elim
+    | nil =>
+      refine ⟨val, hv.1, ?_⟩
+      simpa [segsBytes, expected] using hh
+
+/-- the values are the denotations: for `Value` items `canonM` of the tree, for skipped items `null` -/
+theorem c12_values_canon (env : Env) (henv : env.tgt = .value) (segs : List Seg) (vals : List JV)
+    (hv : ResAll env segs vals) (i : Nat) (h1 : i < segs.length) (h2 : i < vals.length) :
+    SJ.Proofs.CanonM.canonM env.cfg segs[i].t = some vals[i] := by
+  induction segs generalizing vals i with
+  | nil => simp at h1
+  | cons s r ih =>
+    cases vals with
+    | nil => exact hv.elim
+    | cons v vs =>
+      cases i with
+      | zero => exact hv.1.1 henv
+      | succ j => exact ih vs hv.2 j (by simpa using h1) (by simpa using h2)
+
+/-- non-vacuity: `1 [2]"x"` ↦ three values with offsets 1, 5, 8, then `None` at 8 -/
+def exSegs : List Seg :=
+  [⟨[0x31], .num ⟨false, [0x31], [], []⟩, [0x20]⟩,
+   ⟨[0x5b, 0x32, 0x5d], .arr [.num ⟨false, [0x32], [], []⟩], []⟩,
+   ⟨[0x22, 0x78, 0x22], .str [.raw 0x78], []⟩]
+
+theorem exSegs_ok : StreamOK envS exSegs := by
+  refine ⟨Derives.num ⟨false, [0x31], [], []⟩ rfl, ?_, by decide, Or.inr (Or.inr ⟨0x20, _, rfl, by decide⟩),
+    ?_, ?_, by decide, Or.inl ⟨0x5b, _, rfl, by decide⟩,
+    Derives.str [.raw 0x78] rfl, ?_, by decide, Or.inl ⟨0x22, _, rfl, by decide⟩, trivial⟩
+  · intro _; exact ⟨Or.inr (by decide), rfl, fun _ => rfl, rfl⟩
+  · have := Derives.arr [] [0x32] [] [.num ⟨false, [0x32], [], []⟩] (by decide) (by decide) (by simp)
+      (.one _ _ (Derives.num ⟨false, [0x32], [], []⟩ rfl))
+    simpa using this
+  · intro _; exact ⟨Or.inr (by decide), rfl, fun _ => rfl, rfl⟩
+  · intro _; exact ⟨Or.inr (by decide), rfl, fun _ => rfl, rfl⟩
+
+example : ∃ vals, ResAll envS exSegs vals ∧
+    history envS (3 + 2) (start [0x31, 0x20, 0x5b, 0x32, 0x5d, 0x22, 0x78, 0x22]) = expected 0 exSegs vals 2 :=
+  c12_values envS [] exSegs 2 (by decide) exSegs_ok
+
+example : (history envS 5 (start [0x31, 0x20, 0x5b, 0x32, 0x5d, 0x22, 0x78, 0x22])).map (·.2) = [1, 5, 8, 8, 8] := rfl
+example : ((history envS 5 (start [0x31, 0x20, 0x5b, 0x32, 0x5d, 0x22, 0x78, 0x22])).map fun p =>
+    match p.1 with | .none => 0 | .ok _ => 1 | .err _ _ => 2) = [1, 1, 1, 0, 0] := rfl
 
 end SJ.Props.C12
